@@ -33,7 +33,7 @@ pub fn check_record(rec: &Value) -> Verdict {
         Ok(s) => s,
         Err(p) => return Verdict::fail(format!("panic:{}", p), record_text(rec)),
     };
-    for i in 0..3 {
+    for i in 0..rec["repeats"].as_u64().unwrap_or(3) {
         let again = match eval(rec) {
             Ok(s) => s,
             Err(p) => return Verdict::fail(format!("panic:{}", p), record_text(rec)),
@@ -113,7 +113,7 @@ fn make_record(ch: &[u32], t: usize, variant: u8) -> Value {
 }
 
 pub fn run(ctx: &mut Ctx) {
-    ctx.rule = "Inputs: generated programs with >= 4 resources across bind groups (buffer addresses in several groups for the inline blocks, resources declared out of slot order), 2-6 statics used per function, task shaders dispatching two payload types, overload sets / template instances / structs whose names collide with generated `_N` suffixes, include graphs with #pragma once reached by two paths, rejected variants (diagnostics), and overload sets of one name (also reserved words) in the global scope and in sibling / nested namespaces; x 4 targets x {all, named, no-pipeline} x layout validation on/off. Oracle: the full result (sources, stages, metadata, state or diagnostic text) is identical across 4 evaluations in one process (every compile builds fresh HashMaps with fresh seeds) and across 8 freshly spawned processes. Non-trivial = the input has a pipeline and >= 4 resources or a forced name collision. Distinct = hash of the record.".into();
+    ctx.rule = "Inputs: generated programs with >= 4 resources across bind groups (buffer addresses in several groups for the inline blocks, resources declared out of slot order), 2-6 statics used per function, task shaders dispatching two payload types, overload sets / template instances / structs whose names collide with generated `_N` suffixes, include graphs with #pragma once reached by two paths, rejected variants (diagnostics; also every ill-typed program of C03's injection table and 17 shapes with several offending entities of one kind - enumerators out of range, unmatched and ambiguous overload sets, several undefined names, duplicate definitions, failing template instances, pipeline property errors, several structs failing layout validation, missing interpolators - each evaluated 12 times), and overload sets of one name (also reserved words) in the global scope and in sibling / nested namespaces; x 4 targets x {all, named, no-pipeline} x layout validation on/off. Oracle: the full result (sources, stages, metadata, state or diagnostic text) is identical across 4 evaluations in one process (every compile builds fresh HashMaps with fresh seeds) and across 8 freshly spawned processes. Non-trivial = the input has a pipeline and >= 4 resources or a forced name collision. Distinct = hash of the record.".into();
     ctx.assumptions.push("no source of non-determinism other than hash seeds exists in the code read (no clock, threads, addresses or environment access)".into());
     if !ctx.replay_tier(&check_record) {
         return;
@@ -164,6 +164,47 @@ pub fn run(ctx: &mut Ctx) {
         },
         check_record,
     );
+    // rejected inputs: the diagnostic (which error is reported first, its position, its notes) must not depend on hash
+    // order either. Every ill-typed program of C03's injection table, and shapes with several entities of one kind of
+    // which the diagnostic has to pick or list some
+    {
+        const REJECTS: &[&str] = &[
+            "enum Range { Lowest = -2, Low = -1, High = 0xFFFFFFFFu, Higher = 0xFFFFFFFEu };\nvoid f() {}\n",
+            "enum Big { A0 = -5, A1 = 4294967295u, A2 = -7, A3 = 4294967290u, A4 = 1 };\n",
+            "void f(int a) {}\nvoid f(float a, float b) {}\nvoid f(uint3 v) {}\nvoid f(bool a, bool b, bool c) {}\nnamespace N { void f(int a, int b, int c, int d, int e) {} }\nvoid g() { f(1, 2, 3, 4); }\n",
+            "void f(int a, half b) {}\nvoid f(half a, int b) {}\nvoid f(uint a, uint b) {}\nvoid f(float a, float b) {}\nvoid g(half h) { f(h, h); }\n",
+            "void a() { x1 = 1; }\nvoid b() { y1 = 2; }\nvoid c() { z1 = 3; }\n",
+            "struct S { int a; };\nstruct S { int b; };\nstruct T { int a; int a; int b; int b; };\n",
+            "namespace A { void f() {} void f() {} }\nnamespace B { void g() {} void g() {} }\nvoid h() {}\nvoid h() {}\n",
+            "enum E { A, B, A, B, C, C };\n",
+            "cbuffer C { int a; int a; int b; int b; };\nstatic int s;\nstatic int s;\nstatic float t;\nstatic float t;\n",
+            "template<typename T> T id(T a) { return a.nope; }\nvoid g() { id(1); id(1.0); id(true); id(2u); }\n",
+            "[numthreads(1, 1, 1)] void cs() {}\nPipeline P { ComputeShader = nothing; VertexShader = nothing2; Foo = 1; Bar = 2; ComputeShader = cs; }\n",
+            "struct A { float a; float2 b; };\nstruct B { float a; float3 b; float c; };\nstruct C { float2 a; float3 b; };\nStructuredBuffer<A> sa;\nStructuredBuffer<B> sb;\nRWStructuredBuffer<C> sc;\n[numthreads(1, 1, 1)] void cs() { sa[0]; sb[0]; sc[0].a = float2(0, 0); }\nPipeline P { ComputeShader = cs; }\n",
+            "[[rssl::bind_group(40)]] Texture2D<float4> t0;\n[[rssl::bind_group(41)]] Texture2D<float4> t1;\n[[rssl::bind_group(42)]] Texture2D<float4> t2;\n[numthreads(1, 1, 1)] void cs() { t0; t1; t2; }\nPipeline P { ComputeShader = cs; }\n",
+            "struct VO { float4 p : SV_Position; float2 a : AAA; float2 b : BBB; float2 c : CCC; };\nVO vs() { VO o; o.p = float4(0, 0, 0, 1); o.a = float2(0, 0); o.b = o.a; o.c = o.a; return o; }\nfloat4 ps(float2 x : XXX, float2 y : YYY, float2 z : ZZZ) : SV_Target0 { return float4(x, y) + float4(z, z); }\nPipeline P { VertexShader = vs; PixelShader = ps; }\n",
+            "void f() { double3x3 m; m[0][0] = 1; float3x4 k; k[1] = float4(0, 0, 0, 0); uint64_t q = 1; }\n",
+            "int f(int a) { return a; }\nint f(int a) { return a + 1; }\nint g(float b) { return 1; }\nint g(float b) { return 2; }\nvoid u() { f(1); g(1.0); }\n",
+            "void f(out int a, out int b) { }\nvoid g() { f(1, 2); int k; k.x.y = 3; undefined_a(); undefined_b(); }\n",
+        ];
+        let mut rejected: Vec<(String, String)> = crate::c03::violation_sources();
+        for (i, r) in REJECTS.iter().enumerate() {
+            rejected.push((format!("reject_{}", i), r.to_string()));
+        }
+        let variants = 8u64; // 4 targets x layout validation on / off
+        let make = |i: u64| {
+            let (name, text) = &rejected[(i / variants) as usize];
+            let v = i % variants;
+            json!({"files": [["main.rssl", text]], "tgt": Tgt::ALL4[(v % 4) as usize].name(), "mode": if name.starts_with("reject_") { "all" } else { "nopipe" }, "validate": v >= 4, "rich": true, "repeats": 11, "name": name})
+        };
+        ctx.run_enum("rejected_inputs", rejected.len() as u64 * variants, true, make, |i| match check_record(&make(i)) {
+            Verdict::Pass { nontrivial, mut labels } => {
+                labels.push("rejected_catalogue".into());
+                Verdict::Pass { nontrivial, labels }
+            }
+            other => other,
+        });
+    }
     // cross-process: a deterministic sample of inputs evaluated in 8 fresh processes
     let n = ctx.tier.pick(400, 6_000);
     let sample = sample_strategy(&strat(), ctx.seed ^ 0xC07, n);
